@@ -6,6 +6,8 @@ HOOKS = {
     "add_only": True,
 }
 ENGINES = [
+    {"name": "SCHED", "path": "/verif/amc/shim/vsched + /verif/amc/explore + /verif/amc/instr", "serves_properties": ["C04"],
+     "kind_free_text": "stateless model checking: source instrumenter (go build -overlay) turns every sync/atomic/go/channel operation into a schedule point of a cooperative scheduler running inside a testing/synctest bubble; DFS over choice lists with iterative deviation bounding, causal zero-cost continuation, conflict-based point reduction, replayable schedules"},
     {"name": "SEQ", "path": "/verif/amc/kit", "serves_properties": ["C01", "C02"],
      "kind_free_text": "sequential explicit-state search: BFS over the states of real machines (successor = fresh instance + replayed shortest path + one operation), enumerated schema spaces, reference predicates"},
 ]
@@ -25,5 +27,12 @@ LEVELS = {
         "text": "Every reachable state of every enumerated schema is expanded with every mutation kind; after each step all public views are compared with Time(nil), every traced transition's per-state tick delta is checked against the documented step table, and tracer/OnChange before/after times are chained. Bounded-exhaustive over small schemas, which is where tick arithmetic lives.",
         "design_ref": "DESIGN.md section 5 C01",
         "note": "Trusted: kit.CheckViews parsers. Handler-bound variants run inside testing/synctest bubbles (fake time). Concurrent readers: see SCHED half.",
+    },
+    "C04": {
+        "engine": "SCHED",
+        "technique": "stateless model checking of goroutine interleavings on the real machine: controlled scheduler in a synctest bubble, iterative deviation bounding, conflict-based point reduction",
+        "text": "Eight closed 2-3 thread drivers (plain, canceled, handler that mutates, veto, Eval, CanAdd, queue limit) are executed under every schedule with <= bound deviations (quick 2 handler-less / 1 with handlers, thorough 3/2); oracle at every quiescence: handler/eval mutual exclusion, no nested transitions, queue-tick order, no stranded mutation on an idle machine, WhenQueue closed for processed ticks, no deadlock. Exhaustive within the stated bound, which is what a lost-CAS window needs.",
+        "design_ref": "DESIGN.md section 5 C04, section 4.2",
+        "note": "Trusted: instrumenter/shims (every sync, atomic, go, channel op of pkg/machine is a schedule point), synctest fake clock. Not covered: >3 threads, deviations above the bound, handler timeouts (excluded by the statement).",
     },
 }
